@@ -320,6 +320,7 @@ class FuncIntervals:
         self.ret = BOTTOM
         self.ret_elems: t.Dict[int, IV] = {}
         self.alias: t.Dict[str, str] = {}
+        self.comp_of: t.Dict[int, t.List[ast.comprehension]] = {}
         self._index_exprs()
         if not skeleton:
             self._solve()
@@ -338,6 +339,24 @@ class FuncIntervals:
                 for sub in ast.walk(p):
                     if isinstance(sub, (ast.expr, ast.stmt, ast.withitem, ast.keyword)):  # ctx/operator nodes are shared singletons
                         self.node_of_expr.setdefault(id(sub), n.id)
+        # variables bound by comprehensions: every node of the element / conditions sees the generators around it
+        def bind(node: ast.AST, gens: t.List[ast.comprehension]) -> None:
+            if isinstance(node, (ast.ListComp, ast.SetComp, ast.GeneratorExp, ast.DictComp)):
+                inner = list(gens)
+                for g in node.generators:
+                    bind(g.iter, list(inner))
+                    inner = inner + [g]
+                    for c in g.ifs:
+                        bind(c, inner)
+                for part in ([node.key, node.value] if isinstance(node, ast.DictComp) else [node.elt]):
+                    bind(part, inner)
+                return
+            if gens and isinstance(node, ast.expr):
+                self.comp_of[id(node)] = gens
+            for c in ast.iter_child_nodes(node):
+                bind(c, gens)
+
+        bind(self.func.node, [])
         a = self.func.node.args
         for arg in a.posonlyargs + a.args + a.kwonlyargs:
             ann = unparse(arg.annotation)
@@ -643,7 +662,32 @@ class FuncIntervals:
         nid = self.node_of_expr.get(id(expr))
         if nid is None or nid not in self.inn:
             return BOTTOM if nid is not None and self.inn else IV.top()
-        return self.eval(expr, self.inn[nid])
+        env = self.inn[nid]
+        gens = self.comp_of.get(id(expr))
+        if gens:
+            env = dict(env)
+            for g in gens:
+                self._bind_iter(env, g.target, g.iter)
+        return self.eval(expr, env)
+
+    def _bind_iter(self, env: Env, target: ast.expr, it: ast.expr) -> None:
+        """Range of a comprehension / loop variable from what it iterates over."""
+        iv = IV.top()
+        if isinstance(it, (ast.Tuple, ast.List)) and it.elts and not any(isinstance(x, ast.Starred) for x in it.elts):
+            iv = BOTTOM
+            for x in it.elts:
+                iv = iv.join(self.eval(x, env))
+        elif isinstance(it, ast.Call) and unparse(it.func) == "range" and it.args:
+            args = [self.eval(x, env) for x in it.args]
+            lo, hi = (IV.const(0), args[0]) if len(args) == 1 else (args[0], args[1])
+            if len(args) == 3 and args[2].hi is not None and args[2].hi < 0:
+                iv = IV(None if hi.lo is None else hi.lo + 1, lo.hi)
+            else:
+                iv = IV(lo.lo, None if hi.hi is None else hi.hi - 1)
+        else:
+            iv = self._elem_iv(it, env)
+        if isinstance(target, ast.Name):
+            env[target.id] = iv
 
     def reachable(self, expr: ast.AST) -> bool:
         nid = self.node_of_expr.get(id(expr))
